@@ -831,6 +831,23 @@ func (x *storeExec) quiesce() {
 			x.observe(nd, sig, true)
 		case "C14":
 			x.st.Oracle("read-free-replica")
+			if id%2 == 0 {
+				// the never-read replica's very first read is the bin stream (no other observer has had
+				// a chance to reorganise it): it must be the stream the read replica gives
+				drain := func(s store.Store) (out []refmodel.RefBin) {
+					x.lib("Bins", sig, func() {
+						for b := range s.Bins() {
+							out = append(out, refmodel.RefBin{Index: b.Index(), Count: b.Count()})
+						}
+					})
+					return
+				}
+				qb, rb := drain(nd.replica), drain(nd.real)
+				if d := refmodel.DiffBins(rb, qb); d != "" {
+					x.fail("read-free-replica", sig, "the bin stream of a never-read store differs from that of its replica that was read between mutations: "+d, "R: "+refmodel.BinsString(rb), "Q: "+refmodel.BinsString(qb))
+				}
+				x.st.Probe("first-read-is-the-bin-stream")
+			}
 			r := x.snapStore(nd.real, "R")
 			q := x.snapStore(nd.replica, "Q")
 			x.st.Note(r.hash())
